@@ -468,11 +468,24 @@ pub fn explore(opts: &Opts) -> Explored {
     let mut base_programs = 0u64;
     // the main alphabet, and a small one around axpy with an inexact coefficient (where a shortcut for
     // "the same handle twice" would differ from the general path by a rounding)
-    let alphabets: Vec<(Vec<OpK>, usize)> = vec![(vec![OpK::Add, OpK::Mul, OpK::Neg, OpK::UMul], 3), (vec![OpK::Axpy(0.1), OpK::Mul, OpK::Div], 2)];
-    for (ops, gen_nodes) in alphabets {
+    // ... and one of matrix products of square matrices with their own transposes (the same handle on
+    // both sides, against a clone on one side), weighted by a non-symmetric matrix
+    let square_pool = vec![
+        Leaf { dims: vec![2, 2], vals: vec![1.0 + var as f64, 2.0, -3.0, 0.5] },
+        Leaf { dims: vec![2, 2], vals: vec![2.0, -1.0, 4.0, 3.0 + var as f64] },
+        Leaf { dims: vec![2, 2], vals: vec![0.5, 1.5, -2.0, 1.0] },
+    ];
+    let alphabets: Vec<(Vec<OpK>, usize, Vec<Leaf>)> = vec![
+        (vec![OpK::Add, OpK::Mul, OpK::Neg, OpK::UMul], 3, pool.clone()),
+        (vec![OpK::Axpy(0.1), OpK::Mul, OpK::Div], 2, pool.clone()),
+        (vec![OpK::Matmul { ta: false, tb: true, bias: false }, OpK::Matmul { ta: true, tb: false, bias: false }, OpK::Mul], 2, square_pool),
+    ];
+    for (ops, gen_nodes, pool) in alphabets {
+    let is_matmul_alphabet = ops.iter().any(|o| matches!(o, OpK::Matmul { .. }));
     let (pairs_upto, singles_upto) = match opts.tier {
-        Tier::Quick => (2usize, 3usize),
-        Tier::Thorough => (3, 3),
+        // the matrix alphabet: pairs of perturbations only in the thorough tier
+        Tier::Quick => (if is_matmul_alphabet { 1usize } else { 2usize }, 3usize),
+        Tier::Thorough => (if is_matmul_alphabet { 2 } else { 3 }, 3),
     };
     let masks: Vec<u32> = vec![0b111, 0b011, 0b101];
     let threads = opts.threads.max(1);
